@@ -595,12 +595,49 @@ def cases():
         "messages": st.lists(messages(), min_size=1, max_size=30)})
 
 
+def fuzz_cases():
+    """the same histories, drawn as a tuple: what Hypothesis's byte-string front end (fuzz_one_input) decodes reliably"""
+    return st.tuples(st.lists(st.sampled_from(["get_obj", "get_list", "get_func", "get_obj"]), min_size=1, max_size=4), st.booleans(),
+                     st.sampled_from(["well", "well", "badly", "never"]), st.booleans(),
+                     st.lists(messages(), min_size=1, max_size=30)).map(
+        lambda t: {"prelude": t[0], "release": t[1], "policy": t[2], "conn2_custom_exc": t[3], "messages": t[4]})
+
+
+def case_from_bytes(data):
+    """decode a fuzzer input into the history it stands for (None when the bytes do not decode to one)"""
+    from hypothesis import given
+    box = []
+
+    @given(fuzz_cases())
+    def capture(case):
+        box.append(case)
+    capture.hypothesis.fuzz_one_input(bytes(data))
+    return box[0] if box else None
+
+
 def plan(tier, scale):
     n, sh = (100, 12) if tier == "quick" else (2500, 14)
-    return [{"part": "histories", "n": int(n * scale)} for _ in range(sh)]
+    out = [{"part": "histories", "n": int(n * scale)} for _ in range(sh)]
+    # coverage-guided campaigns over the same grammar (libFuzzer's bytes -> Hypothesis -> history), oracle inside the target
+    out += [{"part": "atheris", "runs": int((300 if tier == "quick" else 8000) * scale)} for _ in range(1 if tier == "quick" else 4)]
+    return out
+
+
+def rejudge(data, rec):
+    case = case_from_bytes(data)
+    if case is None:
+        return []
+    try:
+        return check(case, rec)
+    finally:
+        cleanup_modules()
 
 
 def run_shard(desc, seed, rec, tier):
+    if desc["part"] == "atheris":
+        from vlib import fuzz
+        fuzz.run_campaign(rec, "c07_history", desc["runs"], seed, "random", lambda data: rejudge(data, rec))
+        return
     try:
         drive(rec, cases(), lambda c: check(c, rec), desc["n"], seed)
     finally:
